@@ -89,10 +89,13 @@ func (d *jsonDecoder) cutFieldsBySize(data []byte) []byte {
 			return jsonCutPos{}, false
 		}
 
-		// [v.Index] is value start position including quote (")
+		// [v.Index] is value start position including quote (");
+		// [v.Raw] is the value as written in data, quotes included: with escape sequences it is longer than [v.Str]
+		rawLen := len(v.Raw) - 2
+		keep := jsonCutKeep(data[v.Index+1:v.Index+1+rawLen], limit)
 		return jsonCutPos{
-			start: v.Index + limit + 1,
-			end:   v.Index + len(v.Str),
+			start: v.Index + keep + 1,
+			end:   v.Index + rawLen,
 		}, true
 	}
 
@@ -130,6 +133,30 @@ func (d *jsonDecoder) cutFieldsBySize(data []byte) []byte {
 	}
 
 	return data
+}
+
+// jsonCutKeep returns how many bytes of the raw (still escaped) content of a JSON string to keep
+// so that at most limit bytes remain and no escape sequence (\\x, \\uXXXX) is cut in two.
+func jsonCutKeep(content []byte, limit int) int {
+	if limit >= len(content) {
+		return len(content)
+	}
+	i := 0
+	for i < limit {
+		if content[i] != '\\' {
+			i++
+			continue
+		}
+		n := 2
+		if i+1 < len(content) && content[i+1] == 'u' {
+			n = 6
+		}
+		if i+n > limit {
+			return i
+		}
+		i += n
+	}
+	return limit
 }
 
 func extractJsonParams(params Params) (jsonParams, error) {
